@@ -680,7 +680,6 @@ fn decision_label(d: &Decision, transport: Transport) -> &'static str {
     match d {
         Decision::Ack => "ack",
         Decision::AckThenClose => "ack-then-close",
-        Decision::Status(s) if transport == Transport::Grpc && *s < 400 => "grpc-http-status-3xx",
         Decision::Status(_) if transport == Transport::Grpc => "grpc-http-status",
         Decision::Status(s) if *s < 400 => "status-3xx",
         Decision::Status(s) if *s < 500 => "status-4xx",
@@ -767,6 +766,9 @@ pub fn judge(sc: &Scenario, obs: &Observed, cx: &mut Cx) -> Result<Result<(), St
             if r.failed() {
                 any_failed = true;
                 cx.class(&format!("fault:{}", decision_label(&r.decision, r.transport)));
+                if matches!(r.decision, Decision::Status(s) if s < 400) && r.transport == Transport::Grpc {
+                    cx.class("fault:grpc-http-status-3xx");
+                }
                 if let Decision::WedgeConnection { keep_reading } = r.decision {
                     cx.class(if keep_reading { "wedge:still-reading" } else { "wedge:not-reading" });
                 }
